@@ -24,6 +24,9 @@ def indexL (xs : List Int) (i : Int) : Except PyErr Int :=
     | some x => .ok x
     | none => .error .indexError
 
+/-- `bytes(x ^ y for (x, y) in zip(a, b))` -/
+def xorBytes (a b : Bytes) : Bytes := (a.zip b).map fun p => p.1 ^^^ p.2
+
 /-- Python `b * n` on bytes (a non-positive count gives the empty string) -/
 def bytesRepeat (b : Bytes) (n : Int) : Bytes := (List.replicate n.toNat b).flatten
 
